@@ -153,7 +153,20 @@ def split_range(ver, op, v):
 
 
 def only_raise(stmts):
-    return len(stmts) == 1 and isinstance(stmts[0], ast.Raise)
+    """the statement list raises unconditionally: straight-line assignments / expression statements that do not
+    touch a stream (building the message), then `raise`"""
+    if not stmts or not isinstance(stmts[-1], ast.Raise):
+        return False
+    for s in stmts[:-1]:
+        if not isinstance(s, (ast.Assign, ast.Expr)):
+            return False
+        for n in ast.walk(s):
+            if isinstance(n, ast.Call) and isinstance(n.func, ast.Attribute) and n.func.attr in (
+                    "read", "write", "is_tag_next", "is_type_next", "peek", "is_oversized"):
+                return False
+            if isinstance(n, ast.Attribute) and is_self(n.value) and isinstance(n.ctx, ast.Store):
+                return False
+    return True
 
 
 def contains_raise(stmts):
